@@ -29,7 +29,7 @@ from code_data import (
 )
 
 PRODUCER = (3, 7) <= PY <= (3, 10)
-H = 20.0
+H = 60.0  # per-call horizon (seconds): generous, it only turns non-termination into an observation
 try:
     import orjson
 except ImportError:
